@@ -35,10 +35,13 @@ def rows_of(arr, ts):
     return [[num(v) for v in r] for r in flat.tolist()]
 
 
+DTYPE = ['float64']      # dtype of the arrays handed to femio in the current case
+
+
 def to_arr(rows, tail, ts, T):
     """model rows -> ndarray as a caller would pass it"""
     n = len(rows)
-    a = np.array(rows, dtype=float)
+    a = np.array(rows, dtype=float).astype(DTYPE[0])
     if ts:
         a = a.reshape([n, T] + list(tail))
         return np.ascontiguousarray(np.moveaxis(a, 0, 1))
@@ -70,7 +73,7 @@ def slice_obs(f, ts, flags):
     return [[i, r] for i, r in zip(ids, d)]
 
 
-def read_all(a, q, q1, ks, k1):
+def read_all(a, q, q1, ks, k1, others=(), cq=None):
     flags = []
     ts = a.time_series
     o = {'q': q, 'q1': q1, 'ks': ks, 'k1': k1}
@@ -128,6 +131,63 @@ def read_all(a, q, q1, ks, k1):
         if len(set(ids)) == n else []
     full['iloc1_bad'] = [k for k, i in enumerate(ids)
                          if slice_obs(lambda: a.iloc[k], ts, fflags) != [[i, ref[k]]]]
+    # collection-level read paths over members stored in different orders
+    if True:
+        if cq is None:
+            cq = list(q)
+        with contextlib.redirect_stdout(io.StringIO()):
+            B = FEMAttributes({'x': a, **{f'm{j}': m for j, m in enumerate(others)}})
+        members = list(B.values())
+        o['cq'] = cq
+
+        def cf(sel):
+            with contextlib.redirect_stdout(io.StringIO()):
+                r = B.filter_with_ids(sel)
+            out = []
+            for key, m in zip(B.keys(), members):
+                v = r[key]
+                if bool(v.time_series) != bool(m.time_series):
+                    flags.append('collection filter changes time_series')
+                d = rows_of(v.data, v.time_series)
+                idl = [int(i) for i in v.ids]
+                if len(idl) != len(d):
+                    raise ValueError('length')
+                out.append([[i, row] for i, row in zip(idl, d)])
+            return out
+        try:
+            o['cfilter'] = cf(cq)
+        except Exception:
+            o['cfilter'] = None
+        try:
+            ed = B.extract_dict(cq)
+            o['cextract'] = [rows_of(ed[key], m.time_series) for key, m in zip(B.keys(), members)]
+        except Exception:
+            o['cextract'] = None
+        common = [i for i in ids if all(i in set(int(x) for x in m.ids) for m in others)]
+        bad = []
+        if common:
+            try:
+                res = cf(common)
+                for key, m, tb in zip(B.keys(), members, res):
+                    own = {int(i): row for i, row in zip(m.data_frame.index, frame_rows(m.data_frame, m.time_series))}
+                    if tb != [[i, own[i]] for i in common]:
+                        bad.append(key)
+            except Exception:
+                bad.append('raises')
+        full['cfilter_bad'] = bad
+        try:
+            if [int(i) for i in B.get_attribute_ids('x')] != o['ids']:
+                flags.append('get_attribute_ids')
+            gd = B.get_attribute_data('x')
+            if o['data'] is not None and rows_of(gd, ts) != o['data']:
+                flags.append('get_attribute_data')
+            td = B.to_dict()
+            if [int(i) for i in td['x/ids']] != o['ids'] or \
+                    (o['data'] is not None and rows_of(td['x/data'], ts) != o['data']):
+                flags.append('FEMAttributes.to_dict')
+        except Exception:
+            if o['data'] is not None:
+                flags.append('collection reads raise')
     o['full'] = full
     o['gen'] = bool(a.generate_id2index)
     o['ts'] = bool(ts)
@@ -172,16 +232,47 @@ class Gen:
     def init(self):
         r = self.r
         n = r.choice([1, 2, 3, 3, 4, 5, 6, 8])
-        mode = r.choice(['dense', 'sparse', 'sparse', 'large'])
-        ids = self.fresh_ids(n, mode)
+        mode = r.choice(['dense', 'sparse', 'sparse', 'large', 'almost', 'almost'])
+        if mode == 'almost':
+            # dense ids a..a+n-1 stored almost sorted
+            a0 = r.choice([0, 1, 1, 1000, 2 ** 31 - 2])
+            ids = [a0 + k for k in range(n)]
+            how = r.choice(['interior', 'swap', 'move', 'reversed'])
+            if how == 'interior' and n > 3:
+                mid = ids[1:-1]
+                r.shuffle(mid)
+                ids = [ids[0]] + mid + [ids[-1]]
+            elif how == 'swap' and n > 1:
+                j = r.randrange(n - 1)
+                ids[j], ids[j + 1] = ids[j + 1], ids[j]
+            elif how == 'move' and n > 2:
+                x = ids.pop(r.randrange(n))
+                ids.insert(r.randrange(n), x)
+            else:
+                ids.reverse()
+            mode = 'dense'
+        else:
+            ids = self.fresh_ids(n, mode)
         if r.random() < 0.2:
             ids.sort()
         ts = r.random() < 0.15
         tail = r.choice([[], [1], [3], [3]] if ts else [[], [1], [3], [3], [2, 2], [3, 3]])
         T = r.choice([1, 2, 3]) if ts else 1
         w = int(np.prod(tail)) if tail else 1
+        # other members of the collection: the same ids in other orders (a time series whose
+        # step count equals the row count included)
+        others = []
+        for j in range(r.choice([1, 1, 2])):
+            oid = list(ids)
+            r.shuffle(oid)
+            ots = j == 1 or r.random() < 0.2
+            otail = r.choice([[], [1], [3]] if ots else [[], [1], [2], [3, 3]])
+            oT = (n if r.random() < 0.6 else r.choice([1, 2, 3])) if ots else 1
+            ow = (int(np.prod(otail)) if otail else 1) * oT
+            others.append({'ids': oid, 'rows': self.val_rows(n, ow), 'tail': otail, 'ts': ots, 'T': oT})
         return {'ids': ids, 'rows': self.val_rows(n, w * T), 'tail': tail, 'ts': ts, 'T': T,
-                'gen': r.random() < 0.6, 'mode': mode}
+                'gen': r.random() < 0.6, 'mode': mode, 'others': others,
+                'dtype': r.choice(['float64', 'float64', 'float64', 'int64', 'float32'])}
 
     def query(self, ids, mode):
         r = self.r
@@ -196,6 +287,13 @@ class Gen:
             ks.append(n + r.randrange(3))
         k1 = r.randrange(n) if r.random() < 0.93 else n + r.randrange(2)
         return q, q1, ks, k1
+
+    def cquery(self, ids, others, q):
+        r = self.r
+        common = [i for i in ids if all(i in o['ids'] for o in others)]
+        if common and r.random() < 0.75:
+            return r.sample(common, min(len(common), r.choice([1, 2, 3, 4])))
+        return list(q)
 
     def op(self, ids, st):
         """st: tail, ts, T, mode"""
@@ -286,7 +384,7 @@ def apply_op(A, o, st):
             a.data = arr
         st['tail'] = t2
     elif k == 'SetFrame':
-        a.data_frame = pd.DataFrame(np.array(o['rows'], dtype=float), index=o['ids'])
+        a.data_frame = pd.DataFrame(np.array(o['rows'], dtype=float).astype(DTYPE[0]), index=o['ids'])
     elif k == 'SetIds':
         a.ids = list(o['ids'])
     elif k == 'Update':
@@ -303,11 +401,11 @@ def apply_op(A, o, st):
         A.overwrite('x', to_arr(o['rows'], tail, ts, T))
     elif k == 'OverwriteIds':
         w = len(o['rows'][0]) if o['rows'] else 1
-        A.overwrite('x', np.array(o['rows'], dtype=float).reshape(len(o['rows']), w), ids=o['ids'])
+        A.overwrite('x', np.array(o['rows'], dtype=float).astype(DTYPE[0]).reshape(len(o['rows']), w), ids=o['ids'])
         st.update(ts=False, T=1, tail=[w])
     elif k == 'SetAttr':
         w = len(o['rows'][0]) if o['rows'] else 1
-        A.set_attribute_data('x', np.array(o['rows'], dtype=float).reshape(len(o['rows']), w),
+        A.set_attribute_data('x', np.array(o['rows'], dtype=float).astype(DTYPE[0]).reshape(len(o['rows']), w),
                              allow_overwrite=True)
         st.update(ts=False, T=1, tail=[w])
     else:
@@ -319,7 +417,11 @@ def run_case(case):
     init = case.get('init') or g.init()
     st = {'tail': init['tail'], 'ts': init['ts'], 'T': init['T'], 'mode': init.get('mode', 'sparse')}
     out = {'id': case['id'], 'init': init, 'steps': []}
+    DTYPE[0] = init.get('dtype', 'float64')
+    init.setdefault('others', [])
     with contextlib.redirect_stdout(io.StringIO()):
+        others = [FEMAttribute(f'm{j}', np.array(o['ids']), to_arr(o['rows'], o['tail'], o['ts'], o['T']),
+                               silent=True, time_series=o['ts']) for j, o in enumerate(init['others'])]
         a = FEMAttribute('x', np.array(init['ids']), to_arr(init['rows'], st['tail'], st['ts'], st['T']),
                          silent=True, generate_id2index=init['gen'], time_series=init['ts'])
         A = FEMAttributes({'x': a})
@@ -329,8 +431,11 @@ def run_case(case):
 
     def q_for(i):
         if fixed_q is not None:
-            return fixed_q[i]
-        return g.query([int(x) for x in A['x'].ids], st['mode'])
+            q4 = list(fixed_q[i])
+            return q4[:4] + [others, q4[4] if len(q4) > 4 else q4[0]]
+        cur = [int(x) for x in A['x'].ids]
+        q4 = g.query(cur, st['mode'])
+        return list(q4) + [others, g.cquery(cur, init['others'], q4[0])]
     out['obs0'] = read_all(A['x'], *q_for(0))
     for i in range(n_ops):
         ids = [int(x) for x in A['x'].ids]
